@@ -186,15 +186,10 @@ structure VmemNewFacts where
   freesSourceWithoutDestroying : Bool  -- the source box is deallocated as `MaybeUninit` cells (its items now live in the mapping)
   deriving DecidableEq, Repr, Inhabited
 
-/-- What one `MRBFuture::poll` does, as the translator recognises it from the landmarks of the source (the attempt = a call with
-`self.iter` as first argument, one site per calling convention; the waker registration; the `Ready`/`Pending` exits; the payload
-put back), whether `poll` is written as a loop that goes round at most twice or unrolled into attempt – register – attempt. -/
-structure PollShape where
-  form : String                              -- "loop" | "unrolled" (informative)
-  attemptsAtMost : Nat                       -- attempts per poll (0 = shape not recognised)
-  registersBetweenAttempts : Bool            -- the waker is registered after a failed first attempt and before the second
-  pendingOnlyAfterRegisteredAttempt : Bool   -- `Pending` is returned only when the attempt that follows the registration failed
-  restoresPayload : Bool                     -- a failed attempt puts the payload back
+/-- The observable events of one `MRBFuture::poll`: an attempt at the synchronous operation (a call with the iterator as
+first argument) that succeeds or fails, the registration of the waker, and the result. `unknown` ends a sequence the
+translator's interpreter (`rs2lean/src/poll.rs`) could not follow. -/
+inductive PollEv | attemptOk | attemptFail | register | ready | pending | unknown
   deriving DecidableEq, Repr, Inhabited
 
 end MRB
